@@ -48,6 +48,7 @@ def thread_strategy():
         'second_packer': st.sampled_from([False, False, True]),
         'pack_back': st.sampled_from([0.0, 0.0, 0.5, 1.5]),
         'lines': st.booleans(),
+        'warm': st.booleans(),
     })
 
 
@@ -62,7 +63,7 @@ def execute_threads(case):
     clock.install()
     clock.reset()
     d = newdir()
-    tr = threadprog.ThreadRun('fs', d, prehistory=2)
+    tr = threadprog.ThreadRun('fs', d, prehistory=2, warm=case.get('warm', True))
     try:
         threads = [('packer', tr.packer('packer', case['pack_back']))]
         if case['second_packer']:
@@ -107,6 +108,8 @@ def execute_threads(case):
             threadprog.history_oracle(tr, out, PROPERTY)
             if not out.failures:
                 threadprog.snapshot_oracle(tr, out, PROPERTY)
+            if not out.failures:
+                threadprog.final_reads_oracle(tr, out, PROPERTY)
             if not out.failures:
                 # whatever happened, the storage is usable: the commit lock is free, no pack is marked in
                 # progress, a transaction commits and a pack runs  (a pack that failed with a non-I/O error
